@@ -157,12 +157,48 @@ impl NodeId {
     pub fn reverse_traverse<T>(self, arena: &Arena<T>) -> ReverseTraverse<'_, T> {
         ReverseTraverse::new(arena, self)
     }
-    #[verifier::external_body]
-    pub fn detach<T>(self, arena: &mut Arena<T>) {
+    pub fn detach<T>(self, arena: &mut Arena<T>)
+        // @props C01 C02 C03 C05 C08 C12
+        requires
+            old(arena).wf(),
+            old(arena).has(self),
+        ensures
+            // @ob C01.wf@detach C01 C02 C12
+            final(arena).wf(),
+            // @ob C03.detach_exact_effect C03 C08
+            detach_post(old(arena).nodes@, final(arena).nodes@, self.idx()),
+            final(arena).first_free_slot == old(arena).first_free_slot,
+            final(arena).last_free_slot == old(arena).last_free_slot,
+            // @ob C02.detach_keeps_rank_witness C02
+            forall|w: Ranks| ranked(old(arena).nodes@, w) ==> ranked(final(arena).nodes@, w),
+    {
+        proof {
+            let w = choose|w: Ranks| ranked(old(arena).nodes@, w);
+            lemma_neighbors_distinct(old(arena).nodes@, w, self.idx());
+        }
         let range = SiblingsRange::new(self, self).detach_from_siblings(arena);
+        proof {
+            assert(is_chain(arena.nodes@, self.idx(), seq![self.idx()]));
+        }
+        let ghost mid = arena.nodes@;
         range
             .rewrite_parents(arena, None)
             .expect("Should never happen: `None` as parent is always valid");
+        proof {
+            let c = seq![self.idx()];
+            assert(is_chain(mid, self.idx(), c));
+            assert(c.contains(self.idx())) by {
+                assert(c[0] == self.idx());
+            }
+            assert forall|i: int| i != self.idx() implies !c.contains(i) by {}
+            assert(detach_post(old(arena).nodes@, arena.nodes@, self.idx()));
+            assert forall|w: Ranks| ranked(old(arena).nodes@, w) implies ranked(arena.nodes@, w) by {
+                lemma_detach_wf(old(arena).nodes@, arena.nodes@, self.idx(), w);
+            }
+            let w = choose|w: Ranks| ranked(old(arena).nodes@, w);
+            lemma_detach_wf(old(arena).nodes@, arena.nodes@, self.idx(), w);
+            lemma_relink_wf(*old(arena), *arena);
+        }
         debug_assert!(
             arena[self].is_detached(),
             "The node should be successfully detached"
@@ -1125,8 +1161,8 @@ impl SiblingsRange {
         requires
             links_ok(old(arena).nodes@),
             old(arena).acyclic(),
-            old(arena).live(self.first),
-            old(arena).live(self.last),
+            old(arena).has(self.first),
+            old(arena).has(self.last),
             old(arena).at(self.first).parent == old(arena).at(self.last).parent,
             old(arena).at(self.first).previous_sibling is Some && old(arena).at(self.last).next_sibling is Some ==> old(arena).at(
                 self.first,
